@@ -656,41 +656,54 @@ class ArrGen:
         return Stmt([txt], {'stride-mismatch', 'rank1'}, 'stride_mismatch')
 
     def stmt_where(self, hostile=None):
-        """masked assignment; non-hostile form has a preceding loop with the very same bounds, so that Loki
-        finds an index variable for mask and body"""
+        """masked assignment; non-hostile forms have a preceding loop with the very same bounds as the section
+        of mask and left-hand side, so that Loki finds one index variable for mask and body"""
         r = self.rng
         typ = r.choice(['int', 'real'])
-        c1 = [a for a in self.writable(typ) if a.rank == 1 and a.dims[0].lb == 1]
+        c1 = [a for a in self.writable(typ) if a.rank == 1]
         if len(c1) < 2:
             return None
         a, b = r.sample(c1, 2)
-        # common span 1:n (+0) on both (all rank-1 arrays have extent >= n)
-        rng_txt = '1:n'
+        la, lb = a.dims[0].lb, b.dims[0].lb
         zero = '0' if typ == 'int' else f'0.0_{RK}'
-        mask_kind = r.choice(['mk', 'cmp', 'cmp']) if self.fl.get('logical_mask', True) else 'cmp'
+
+        def sec(arr_lb, shift=0, short=0):
+            return f'{arr_lb + shift}:{aff("n", arr_lb - 1 + shift - short)}'
         if hostile == 'where_shifted':
-            mask = 'mk(1:n-1)'
-            lines = [f'where ({mask}) {a.name}(2:n) = {b.name}(1:n-1) + {self.lit(typ)}']
+            # mask section and body section differ
+            lines = [f'where (mk(1:n-1)) {a.name}({sec(la, 1, 1)}) = {b.name}({sec(lb, 0, 1)}) + {self.lit(typ)}']
             return Stmt(lines, {'where', 'where-shifted'}, 'where_shifted', pre=self._where_pre('1', 'n-1'))
+        ar, br = f'{a.name}({sec(la)})', f'{b.name}({sec(lb)})'
+        pre = self._where_pre(str(la), aff('n', la - 1))
         if hostile == 'where_multi':
-            lines = [f'where ({b.name}({rng_txt}) > {zero})',
-                     f'  {a.name}({rng_txt}) = {b.name}({rng_txt}) + {self.lit(typ)}',
-                     'elsewhere',
-                     f'  {a.name}({rng_txt}) = {self.lit(typ)}',
+            lines = [f'where ({ar} > {zero})',
+                     f'  {ar} = {br} + {self.lit(typ)}',
+                     f'elsewhere ({ar} < {zero})',
+                     f'  {ar} = {self.lit(typ)}',
                      'end where']
-            return Stmt(lines, {'where', 'where-elsewhere'}, 'where_multi', pre=self._where_pre('1', 'n'))
-        form = r.choice(['explicit', 'bare']) if (a.dims[0].pad == 0 and b.dims[0].pad == 0) else 'explicit'
-        ar = f'{a.name}({rng_txt})' if form == 'explicit' else a.name
-        br = f'{b.name}({rng_txt})' if form == 'explicit' else b.name
-        mask = ('mk' if form == 'bare' else 'mk(1:n)') if mask_kind == 'mk' else f'{ar} > {zero}'
+            return Stmt(lines, {'where', 'where-masked-elsewhere'}, 'where_multi', pre=pre)
+        tags = {'where'}
+        bare = la == 1 and a.dims[0].pad == 0 and lb == 1 and b.dims[0].pad == 0 and r.random() < 0.4 \
+            and self.fl.get('implicit_forms', True)
+        if bare:
+            ar, br = a.name, b.name
+            tags.add('where-bare-arrays')
+        use_mk = la == 1 and self.fl.get('logical_mask', True) and r.random() < 0.35
+        mask = ('mk' if bare else 'mk(1:n)') if use_mk else f'{ar} > {zero}'
         body = f'{ar} = {br} - {ar}' if r.random() < 0.5 else f'{ar} = {br} * {r.choice([2, 3])}'
-        if r.random() < 0.5:
+        form = r.choice(['stmt', 'construct', 'elsewhere'])
+        if form == 'stmt':
             lines = [f'where ({mask}) {body}']
-        else:
+        elif form == 'construct':
             lines = [f'where ({mask})', f'  {body}', 'end where']
+        else:
+            lines = [f'where ({mask})', f'  {body}', 'elsewhere', f'  {ar} = {ar} + {self.lit(typ)}', 'end where']
+            tags.add('where-elsewhere')
+        if la != 1:
+            tags.add('where-lb-ne-1')
         if hostile == 'where_no_loop':
-            return Stmt(lines, {'where', 'where-no-matching-loop'}, 'where_no_loop')
-        return Stmt(lines, {'where', 'where-with-matching-loop'}, None, pre=self._where_pre('1', 'n'))
+            return Stmt(lines, tags | {'where-no-matching-loop'}, 'where_no_loop')
+        return Stmt(lines, tags | {'where-with-matching-loop'}, None, pre=pre)
 
     def _where_pre(self, lo, hi):
         return [f'do i = {lo}, {hi}', '  si = si + i * i', 'end do']
@@ -755,7 +768,7 @@ class ArrGen:
             if not c2:
                 return None
             a = r.choice(c2)
-            lines = ['do jj = 1, n', f'  {a.name}(1:n, 1) = {a.name}(1:n, 1) + {a.name}(jj, 2)', 'end do']
+            lines = ['do jj = 3, n', f'  {a.name}(3:n, 1) = {a.name}(3:n, 1) + {a.name}(jj, 2)', 'end do']
             return Stmt(lines, {'section-in-loop-same-range'}, hostile)
         for _ in range(8):
             st = self.stmt_assign(loopvar=('jj', 'm'))
